@@ -169,8 +169,7 @@ theorem lockset_covers :
 
 /-- **structure_facts**: `shutdown = true` only under `if active == 0`; the idle re-arm only under
 `active == 0`; `wg.Add`/`wg.Wait` bracket the connections; `serveOne` gets the connection's own
-reader/writer and a shm state allocated per connection; the socket file is chmod 0600 and removed
-by a deferred call. -/
+reader/writer and a shm state allocated per connection. -/
 theorem structure_facts : ∀ f ∈ Vgi.Generated.C42.facts, f.2 = true := by decide
 
 /-! ### Non-vacuity -/
